@@ -111,6 +111,7 @@ type vfSim struct {
 	holdKey   string         // a hook waiter with exactly this key is only released when holdFn says so (a request that stays
 	holdFn    func() bool    // in its worker while a long pipeline builds up behind it)
 	sendProbe func() bool    // if set, cc.send waiters are released only when this probe of the connection's write lock succeeds
+	double    bool           // race-detector phase: some steps release two parked goroutines at once (they then really overlap)
 	start     time.Time
 }
 
@@ -362,7 +363,51 @@ func (s *vfSim) step(filter func(key string) bool) bool {
 	if s.onStep != nil {
 		s.onStep(e.key)
 	}
+	// Double release (only in the race-enabled phase, cfg.double): now and then a second parked caller task or package
+	// goroutine is released in the same step. The two then run side by side with no happens-before edge between them other
+	// than the package's own synchronisation - which is what the race detector is there to judge. Every other step, and
+	// every run of the checks proper, releases exactly one thing.
+	var e2 *vfEvent
+	if s.double && vfPlainWaiter(e.key, s) && s.tape.next(4) == 0 {
+		var cand []int
+		for j, x := range evs {
+			if j != i && vfPlainWaiter(x.key, s) {
+				cand = append(cand, j)
+			}
+		}
+		if len(cand) > 0 {
+			e2 = &evs[cand[s.tape.next(len(cand))]]
+			s.hashStr(&s.hash, "+"+e2.key)
+			s.hashStr(&s.shash, "+"+e2.key)
+			s.stats["fault.double_release"]++
+			if s.traceOn {
+				s.mu.Lock()
+				s.trace = append(s.trace, fmt.Sprintf("      + %s (released in the same step)", e2.key))
+				s.mu.Unlock()
+			}
+			if s.onStep != nil {
+				s.onStep(e2.key)
+			}
+		}
+	}
 	e.fire()
+	if e2 != nil {
+		e2.fire()
+	}
+	return true
+}
+
+// vfPlainWaiter: a parked caller task or a goroutine parked at a plain hook site (not a lock probe, not a held key).
+func vfPlainWaiter(key string, s *vfSim) bool {
+	if strings.HasPrefix(key, "t:") {
+		return true
+	}
+	if !strings.HasPrefix(key, "h:") || strings.HasPrefix(key, "h:f.lock") || strings.HasPrefix(key, "h:cc.mu") || key == s.holdKey {
+		return false
+	}
+	if s.sendProbe != nil && strings.HasPrefix(key, "h:cc.send") {
+		return false
+	}
 	return true
 }
 
